@@ -98,7 +98,7 @@ def run(tier, seed):
     chk.coverage["rule"] = (
         "one case = one operation sequence (1-600 ops over CreateNode/DeleteNode/DeleteNodeEdges/CreateEdge/DeleteEdge/Set|Remove "
         "Node|Edge Prop/AddLabel/RemoveLabel/CreateIndex/DropIndex/Compact/CompactIfNeeded/FreezeAll/RefreshStats/NewEpoch) run against a "
-        "real LpgStore with backward adjacency, without it, or a GrafeoDB through its non-transactional wrappers; streams: corpus "
+        "real LpgStore with backward adjacency, without it, or a GrafeoDB through its non-transactional wrappers (whose delete_node detaches); streams: corpus "
         "(finding witnesses, chunk-boundary histories), mixed (state-aware, 1/3 with ids that do not exist), hub (>=300 edges on one "
         "source node with compaction at every threshold, deletes in the middle, self-loops, parallel edges, destination 0); after every "
         "op (quick: every 8th/16th/32nd op of histories longer than 12/60/300, after every RefreshStats, and at the end) every accessor of observe_at is "
